@@ -863,6 +863,12 @@ C02_CORPUS = [
     (b'm', {b'm': b'include "a"', b'a': b'\n\n\ninclude "b"\n', b'b': b'\n' * 17 + b'x := RUN f WITH 1 ,'}),
     (b'm', {b'm': b'x := 1 ; include "a"', b'a': b'\n' * 9 + b'IF x = 1 THEN'}),
     (b'm', {b'm': b'include "a"', b'a': b'\n' * 12 + b'DEFINE foo AS x := 1\n\n'}),
+    # divergent macro sets that live in a SUPPLIED file bearing the hidden standard file's name (or in a main file of that
+    # name): the pass budget holds for them as for any other definition
+    (b'm', {b'm': b'foo', b'__standards__': b'DEFINE foo AS foo END DEFINE'}),
+    (b'm', {b'm': b'x := 0', b'__standards__': b'DEFINE <ID> := 0 AS $0 := 0 ; $0 := 0 END DEFINE'}),
+    (b'__standards__', {b'__standards__': b'DEFINE foo AS bar END DEFINE DEFINE bar AS foo END DEFINE foo'}),
+    (b'm', {b'm': b'include "__standards__" tick := 1', b'__standards__': b'DEFINE tick := <INT> AS tock := $0 END DEFINE DEFINE tock := <INT> AS tick := $0 END DEFINE'}),
 ]
 
 
